@@ -95,14 +95,30 @@ def make_obj(o):
 
 
 def objectify(args, dense=False):
-    """[["o.x", payload], ...] -> [["o", Msg payload], ...]: the input o.x is delivered as the field x of the object signal o"""
+    """[["o.x", payload], ["o.f", payload], ...] -> [["o", Msg payload], ...]: the inputs o.<field> are delivered as the fields of
+    one object signal o (dense time: the fields share their time-stamps)"""
     from vmsgs import Msg
     out = []
+    fields = [a for a in args if a[0].startswith("o.")]
+    done = False
     for a in args:
-        if a[0] == "o.x":
-            out.append(["o", [[p[0], Msg(p[1])] for p in a[1]] if dense else Msg(a[1])])
-        else:
+        if not a[0].startswith("o."):
             out.append(a)
+        elif not done:
+            done = True
+            if dense:
+                objs = []
+                for k in range(len(fields[0][1])):
+                    m = Msg()
+                    for fa in fields:
+                        setattr(m, fa[0][2:], fa[1][k][1])
+                    objs.append([fields[0][1][k][0], m])
+                out.append(["o", objs])
+            else:
+                m = Msg()
+                for fa in fields:
+                    setattr(m, fa[0][2:], fa[1])
+                out.append(["o", m])
     return out
 
 
@@ -208,9 +224,20 @@ def run_case(case):
                     order = ev.get("order") or sorted(ev["w"].keys())
                     for v in order:
                         data[v] = [py_val(x, S, ev.get("flt", False)) for x in ev["w"][v]]
-                    if "o.x" in data:
+                    if any(k.startswith("o.") for k in data):
                         from vmsgs import Msg
-                        data = {("o" if k == "o.x" else k): ([Msg(x) for x in d] if k == "o.x" else d) for k, d in data.items()}
+                        fk = [k for k in data if k.startswith("o.")]
+                        objs = [Msg() for _ in data[fk[0]]]
+                        for k in fk:
+                            for m_, x_ in zip(objs, data[k]):
+                                setattr(m_, k[2:], x_)
+                        d2 = {}
+                        for k, d in data.items():
+                            if not k.startswith("o."):
+                                d2[k] = d
+                            elif "o" not in d2:
+                                d2["o"] = objs
+                        data = d2
                     for v in ev.get("extra", {}):
                         data[v] = list(ev["extra"][v])
                     if ev.get("share"):
@@ -332,6 +359,8 @@ def run_text_cases(cases, procs=16):
     import multiprocessing as mp
     if len(cases) < 40:
         return [run_text_case(c) for c in cases]
+    if os.environ.get("VERIF_SERIAL"):           # (line-coverage surveys of the library under the checks)
+        return [run_text_case(c) for c in cases]
     with mp.get_context("fork").Pool(procs) as pool:
         return pool.map(run_text_case, cases, chunksize=max(1, len(cases) // (procs * 4)))
 
@@ -339,7 +368,7 @@ def run_text_cases(cases, procs=16):
 def run_cases(cases, procs=None):
     """run in a process pool; order preserved"""
     procs = procs or min(16, max(1, len(cases) // 20))
-    if procs <= 1 or len(cases) < 40:
+    if procs <= 1 or len(cases) < 40 or os.environ.get("VERIF_SERIAL"):
         return [run_case(c) for c in cases]
     import multiprocessing as mp
     ctx = mp.get_context("fork")
